@@ -1,4 +1,5 @@
 import GdslModel.Lemmas.Serde
+import GdslModel.Lemmas.Json
 /-!
 # C13 — deserialising untrusted input (structural layer)
 The document is already parsed into the two lists the visitor sees (missing elements default to
@@ -33,5 +34,41 @@ theorem Serde.ok_is_wellformed (nodes : List (K × N)) (edges : List (K × K × 
 example : rebuild [((0 : Nat), (1 : Int)), (1, 2), (0, 9)] [(0, 1, (5 : Nat)), (1, 1, 6)] =
     some ([(0, 1), (1, 2)], connect (connect {} 0 1 5) 1 1 6) := by rfl
 example : rebuild [((0 : Nat), (1 : Int))] [(0, 7, (5 : Nat))] = none := by rfl
+
+/-! ## byte level (JSON)
+`Json.deJson` is a total function from byte strings: it has no panic outcome. Whatever it accepts went through
+the grammar of `Model/Json.lean` and then through the visitor, so the structural theorems above apply to it. -/
+
+/-- an accepted byte string denotes a document whose payloads fit their types -/
+theorem Json.parse_inrange (bs : List Nat) (d : Json.Doc) (h : Json.parse bs = some d) : Json.InRange d :=
+  Json.parse_inrange' bs d h
+
+/-- `Ok` from bytes: the bytes denote a document `d`, the graph is mirrored, its nodes come from `d` and every
+    node's lists are exactly the edges `d` lists, in document order -/
+theorem Json.de_ok_wellformed (bs : List Nat) (ns : List (Nat × Int)) (s : Store Nat Nat)
+    (h : Json.deJson bs = some (ns, s)) :
+    ∃ d, Json.parse bs = some d ∧ Mirror s ∧ (∀ p ∈ ns, p ∈ d.1) ∧
+      (∀ k, (s.get k).out = (d.2.filter (fun x => x.1 = k)).map (fun x => (x.2.1, x.2.2))) ∧
+      (∀ k, (s.get k).inn = (d.2.filter (fun x => x.2.1 = k)).map (fun x => (x.1, x.2.2))) :=
+  Json.de_ok_wellformed' bs ns s h
+
+/-- an error exactly when the bytes are outside the grammar or an edge names an undeclared key -/
+theorem Json.de_error_iff (bs : List Nat) :
+    Json.deJson bs = none ↔
+      Json.parse bs = none ∨ ∃ d, Json.parse bs = some d ∧ ∃ x ∈ d.2, (x.1 ∉ d.1.map (·.1)) ∨ (x.2.1 ∉ d.1.map (·.1)) :=
+  Json.de_error_iff' bs
+
+/-- white space around a document does not matter -/
+theorem Json.parse_ws (pre post bs : List Nat) (hpre : ∀ b ∈ pre, Json.isWs b = true) (hpost : ∀ b ∈ post, Json.isWs b = true) :
+    Json.parse (pre ++ bs ++ post) = Json.parse bs :=
+  Json.parse_ws' pre post bs hpre hpost
+
+/-- a truncated document is an error: no proper prefix of a written document is accepted -/
+theorem Json.truncated_is_error (d : Json.Doc) (h : Json.InRange d) (n : Nat) (hn : n < (Json.print d).length) :
+    Json.parse ((Json.print d).take n) = none :=
+  Json.truncated_is_error' d h n hn
+
+example : Json.deJson [91, 91, 91, 48, 44, 49, 93, 93, 44, 91, 91, 48, 44, 55, 44, 53, 93, 93, 93] = none := by decide
+example : (Json.deJson [91, 91, 91, 48, 44, 49, 93, 93, 44, 91, 91, 48, 44, 48, 44, 53, 93, 93, 93]).isSome = true := by decide
 
 end G
